@@ -81,6 +81,13 @@ CLAIMS = {
             "for the next eviction, and that previous-firing state cannot delete current-firing content (defect fixed: the "
             "loader untracks). The R2S operators' set algebra and cross-mode sequence equality are not decided.",
             "MIR critical-section containment, T-ORDER reachability, T-PAIR within loop bodies, sibling impl checks by trait"),
+    "C11": ("DESIGN.md §4 C11",
+            "Decides store ownership: the static store is written only by the static-data API, is never captured by a window "
+            "processor, and the static plan runs only against it; the window store is loaded/evicted only by the window "
+            "processor; and the store a window plan is executed against must be owned by that window - on the pinned tree all "
+            "windows share one store (confirmed known finding; the external-bucket sibling is the conforming instance). The "
+            "synchronisation policies' emission schedule is not decided.",
+            "MIR closure-capture provenance, who-may-call over trait methods, loop placement of store creation"),
 }
 
 NA = {
